@@ -1,10 +1,11 @@
 package main
 
 import (
-	"encoding/json"
 	"flag"
 	"fmt"
 	"os"
+	"runtime/pprof"
+	"time"
 
 	"verif/harness/core"
 	"verif/harness/gen"
@@ -20,6 +21,7 @@ func main() {
 	qlb := flag.Int64("qlb", 0, "")
 	opt := flag.String("opt", "none", "")
 	procs := flag.Int("procs", 4, "")
+	bench := flag.Int("bench", 0, "")
 	flag.Parse()
 	w := core.Range(*start, *step, *n)
 	if *step == 0 {
@@ -27,11 +29,24 @@ func main() {
 	}
 	cs := &core.Case{Q: *q, Data: gen.Dataset(*ds), W: w, O: core.Opts{Optimizers: *opt, LookbackMs: *lb, QLookbackMs: *qlb, Procs: *procs}}
 	st, _ := core.BuildStore(cs.Data)
+	if *bench > 0 {
+		f, _ := os.Create("/tmp/cpu.prof")
+		pprof.StartCPUProfile(f)
+		t0 := time.Now()
+		for i := 0; i < *bench; i++ {
+			core.RunEngine(cs, st)
+		}
+		t1 := time.Now()
+		for i := 0; i < *bench; i++ {
+			core.RunRef(cs, st)
+		}
+		t2 := time.Now()
+		pprof.StopCPUProfile()
+		fmt.Printf("engine %.0fus/op  ref %.0fus/op\n", float64(t1.Sub(t0).Microseconds())/float64(*bench), float64(t2.Sub(t1).Microseconds())/float64(*bench))
+		return
+	}
 	out := core.RunEngine(cs, st)
 	ref := core.RunRef(cs, st)
 	sym, det := core.Diff(ref, out.Res, false)
 	fmt.Printf("engine: %s\nref:    %s\nsym=%s det=%s\npanics=%v mon=%v wf=%v leaked=%d hang=%v\n", out.Res, ref, sym, det, out.Panics, out.Mon, out.WF, out.Leaked, out.Hang)
-	if len(os.Args) > 100 {
-		json.Marshal(cs)
-	}
 }
